@@ -237,6 +237,28 @@ def marked_rules(ck):
                   "a child list is changed at a slot that was recorded for a DIFFERENT node (slot from %s, list of %s): the wrong child pointer is rewired" % (pos[:2], sorted(node_recs)), f.loc(bi))
     ck.floor("DEFUSE", "recorded slots used on recorded nodes", nrec, 3)
 
+    # indices of nodes that insert is about to push are the CURRENT length of the node table: make_owned may append thawed or
+    # migrated nodes on the way down, so the length has to be read in the iteration that uses it (or taken from make_owned's
+    # result). A length read once before the descent names nodes that were appended meanwhile
+    f = getfn(ck, "sc", E, LL + "MutableTrie::insert")
+    if f:
+        loops = natural_loops(f)
+        inloop = set().union(*loops) if loops else set()
+        nki = 0
+        for (bi, t) in f.calls(r"low_level::KeyIndexPair::<.*>::new$|KeyIndexPair::new$"):
+            if len(t["args"]) < 2 or not inloop:
+                continue
+            lens = [a[2] for a in f.origins(t["args"][1], deep=False) if a[0] == "call" and len(a) > 2 and re.search(r"Vec::<.*>::len$|::len$", a[1])
+                    and ("field", "nodes") in f.origins(f.term(a[2])["args"][0], deep=False)]
+            if not lens:
+                continue
+            nki += 1
+            stale = [lb for lb in lens if lb not in inloop and (f.reach_from([lb]) & inloop)]      # read before the loop on a path that enters it
+            ck.ob("DEFUSE", f.path, "new-node-index-is-the-current-table-length#%d" % nki, not stale,
+                  "the index written into the parent's child list is a table length read inside the descent loop" if not stale else
+                  "the index of a node about to be pushed is computed from a table length read BEFORE the descent loop: nodes appended by make_owned on the way down shift the real position", f.loc(bi))
+        ck.floor("DEFUSE", "child links created by insert", nki, 2)
+
     # values written by an older generation are never overwritten in place: `values[i] = ..` / `&mut values[i]` is reached
     # only for an entry of the current generation (`Entry::Mutable`, directly or through `is_owned()`); every other kind of
     # entry gets a fresh slot (an in-place write through a read-only entry changes the generation it was inherited from)
